@@ -156,3 +156,18 @@ pub fn tool_choice_allows(value: &serde_json::Value, name: &str) -> bool {
 }
 
 pub use crate::provider_openresponses::DEFAULT_MAX_TOOL_CALLS;
+
+/// The real workspace checkpoint hook (crate-private module `checkpoints`) behind the
+/// `rip_tools::CheckpointHook` trait, for an external harness (properties C13/C14).
+pub fn workspace_checkpoint_hook(
+    root: PathBuf,
+) -> std::io::Result<std::sync::Arc<dyn rip_tools::CheckpointHook>> {
+    Ok(std::sync::Arc::new(
+        crate::checkpoints::WorkspaceCheckpointHook::new(root)?,
+    ))
+}
+
+/// The lexical resolver applied to a task's `cwd` argument (`tasks::logs::resolve_path`).
+pub fn task_resolve_cwd(root: &std::path::Path, raw: &str) -> Result<PathBuf, String> {
+    crate::tasks::verif_resolve_cwd(root, raw)
+}
